@@ -400,12 +400,26 @@ func c16run(c *Ctx, id, path, field string, vm *model.VecModel, m *model.Seg, se
 				hs[e-4] = nil
 			case 6:
 				before := zap.VerifVecCacheLen(seg)
+				_, closedBefore := faiss.MonitorIndexCounts()
 				for p := 0; p < 4; p++ {
 					zap.VerifVecCacheExpire(seg)
 				}
-				if zap.VerifVecCacheLen(seg) < before {
+				if n := before - zap.VerifVecCacheLen(seg); n > 0 {
 					evicted = true
 					r.Inc("c16_evictions", 1)
+					// the evicted index is released by an asynchronous closer: let it
+					// finish (bounded), so that a release of an index that is still in
+					// use is visible to the very next event
+					for w := 0; w < 4000; w++ {
+						if _, cl := faiss.MonitorIndexCounts(); cl >= closedBefore+int64(n) {
+							break
+						}
+						if w < 100 {
+							runtime.Gosched()
+						} else {
+							time.Sleep(50 * time.Microsecond)
+						}
+					}
 				}
 			}
 			for _, v := range faiss.MonitorViolations() {
